@@ -167,6 +167,14 @@ def generate(prop, g, tier):
         cfg["knobs"]["worker_wakeup"] = 5
         burst = {"name": "tburst", "op": "raw-request", "clients": g.pick([1, 2]), "iterations": g.pick([1100, 1600, 2300]), "warmup-iterations": 0, "tags": [], "sim": {"task": "tburst", "unit": "ops", "cpu_params": None}}
         cfg["schedule"].insert(g.choose(len(cfg["schedule"]) + 1), {"task": burst})
+    if prop == "C07" and g.coin(0.3):
+        # tasks of one parallel element that run the same operation (same operation name): their records stay their own
+        for ei, el in enumerate(cfg["schedule"]):
+            if "parallel" in el:
+                same = [t for t in el["parallel"]["tasks"] if t["op"] in ("sim-op", "raw-request") and "sim" in t]
+                if len(same) >= 2:
+                    for t in g.sample(same, g.pick([2, 2, len(same)])):
+                        t["opname"] = f"shared-op-{ei}"
     if prop == "C07" and g.coin(0.4):
         # some requests fail (on-error=continue): their records say so, the records of the other requests do not
         cands = [t for _, _, t in leaf_tasks(cfg["schedule"]) if t["op"] in ("sim-op", "raw-request") and "sim" in t]
